@@ -530,7 +530,7 @@ impl<'a> World<'a> {
             errs.push("DiskFull");
             errs.push("NotEnoughSpace");
         }
-        let mut allow = Allow { vol: Some(fh.vol), ..Default::default() };
+        let mut allow = Allow { vol: Some(fh.vol), extend_only: true, ..Default::default() };
         if fh.writable {
             for &c in &fh.chain {
                 allow.fat_clusters.insert(c);
